@@ -51,7 +51,13 @@ def cases(tier, rng, schema, feats):
         for khl in (0, 1, 64, 190):
             apdus.append(c08.apdu(0, 2, p1, 0, rng.bytes(64) + bytes([khl]) + rng.bytes(khl), "ext"))
     for a in apdus:
-        for beh in ("ok", "err:6985", "err:6a80", "err:6f00"):
+        behs = ["ok", "err:6985", "err:6a80", "err:6f00", "errd:SecurityStatusNotSatisfied", "errd:KeyReferenceNotFound", "errd:NotEnoughMemory"]
+        # statuses carrying a payload byte, constructed directly (their u16 encoding is not injective in iso7816)
+        for ctor, args in (("ErrorTriggering", (2, 3, 0x40, 0x80)), ("WarningTriggering", (2, 5, 0x80)), ("RemainingRetries", (0, 3, 15)),
+                           ("MoreAvailable", (0, 1, 255)), ("WrongLeField", (0, 7, 255))):
+            for arg in args:
+                behs.append(f"errd:{ctor}({arg})")
+        for beh in behs:
             for entry in ("call", "rpc"):
                 out.append(f"C10.d1.{n}\tdispatch1\t{entry}\t{beh}\t{a.hex()}")
                 n += 1
